@@ -398,7 +398,7 @@ class C19(Check):
             'PreemptiveResource (capacity 1-3), users acting on distinct time phases. Oracle: sequential reference model of '
             'the documented policies. non-trivial = a request had to wait, or was cancelled/preempted, or a filter matched '
             'nothing; distinct by sha1.')
-    budgets = {'quick': dict(examples=2400, procs=4), 'thorough': dict(examples=40000, procs=16)}
+    budgets = {'quick': dict(examples=2400, procs=4), 'thorough': dict(examples=300000, procs=16)}
     level_text = ('Model-based history check: per request grant time and value, per-queue grant order, inspector observations '
                   '(level/items/users/queue lengths) between operations, Preempted details (by, usage_since, resource), '
                   'capacity bounds and conservation must equal the sequential reference of the documented policies.')
